@@ -9,6 +9,7 @@
 package c03
 
 import (
+	"context"
 	"errors"
 	"fmt"
 	"testing"
@@ -360,7 +361,11 @@ func runScenario(t *testing.T, w *emit.Writer, sc scenario, rng *emit.Rand) {
 			res[i] = fmt.Sprint(x)
 		}
 		var probe []string
-		for n := f.Tail; n <= f.Top()+2; n++ {
+		upper := f.Top() + 2
+		if hd, err := f.Store.Store.Head(context.Background()); err == nil && hd.Height()+2 > upper {
+			upper = hd.Height() + 2
+		}
+		for n := f.Tail; n <= upper; n++ {
 			ctx, cancel := syncfx.ShortCtx()
 			h, err := f.Store.Store.GetByHeight(ctx, n)
 			cancel()
@@ -391,7 +396,7 @@ func runScenario(t *testing.T, w *emit.Writer, sc scenario, rng *emit.Rand) {
 
 func randomScript(maxActs int) func(r *runner, rng *emit.Rand) {
 	return func(r *runner, rng *emit.Rand) {
-		for r.nacts < maxActs {
+		for iter := 0; r.nacts < maxActs && iter < 4*maxActs; iter++ {
 			parked := len(r.f.Store.Parked()) > 0
 			req := r.f.Getter.Outstanding()
 			c := rng.Intn(100)
@@ -422,11 +427,7 @@ func randomScript(maxActs int) func(r *runner, rng *emit.Rand) {
 				if h == nil {
 					continue
 				}
-				before := r.nacts
 				r.deliver(h, kind)
-				if r.nacts == before {
-					return
-				}
 			default:
 				if r.learnerParked() {
 					continue
